@@ -38,8 +38,40 @@ def unconditional(n, parents):
             # inside the scrutinee subtree (through Try::branch call)
             if any(x is child for x in F.walk(p["scrut"])):
                 child = p; continue
+        # the body of `for x in <fixed-size array> { .. }` runs once per element, unconditionally, as long as the body has no
+        # break / continue / explicit return (only `?`)
+        if k in ("Loop", "Match") and _in_fixed_array_for(p, parents):
+            child = p; continue
         return False, "%s at %s" % (k, F.loc(p))
     return True, ""
+
+
+def _in_fixed_array_for(p, parents):
+    for q in parents:
+        if q.get("k") == "Match" and "ForLoopDesugar" in q.get("src", ""):
+            sc = F.strip(q["scrut"])
+            if not F.is_call(sc, "std::iter::IntoIterator::into_iter"):
+                continue
+            import re as _re
+            a0 = F.strip(sc["args"][0])
+            if not _re.match(r"^\[.*; [1-8]\]$", a0.get("ty") or ""):
+                continue
+            inside = any(x is p for x in F.walk(q))
+            if not inside:
+                continue
+            for x in F.walk(q):
+                if x.get("k") in ("Break", "Continue") and "ForLoopDesugar" not in str(x.get("src", "")):
+                    # the desugaring's own `None => break` is the only allowed one
+                    par_ok = False
+                    for y, ps in F.walk_with_parents(q):
+                        if y is x:
+                            par_ok = any(z.get("k") == "Match" and F.is_call(F.strip(z.get("scrut", {})), "std::iter::Iterator::next") for z in ps[-3:])
+                    if not par_ok:
+                        return False
+                if x.get("k") == "Return" and not (x.get("e") and F.is_call(F.strip(x["e"]), "std::ops::FromResidual::from_residual")):
+                    return False
+            return p is q or p.get("k") == "Loop" or (p.get("k") == "Match" and F.is_call(F.strip(p.get("scrut", {})), "std::iter::Iterator::next"))
+    return False
 
 
 def check_writer_fn(fx, rep, path, sink_params, sfx=""):
